@@ -6,7 +6,6 @@ import hashlib
 from . import common as C, rustscan as rs, kani_run as K, gen_corpus as G
 
 ACCESSOR = '''
-#[cfg(kani)]
 impl<'input, I: Iterator<Item = char> + Clone, T, S, E, W> Lexer<'input, I, T, S, E, W> {
     /// verification-only (exists only in the scratch copy): place the lexer at a symbolic base location
     pub fn __verif_set_locs(&mut self, base: Loc) { self.iter_loc = base; self.current_match_start = base; self.current_match_end = base; }
@@ -70,16 +69,21 @@ def run(name, defs, N, LOGM, timeout=1500, jobs=None):
 def unwind_bound(d, N, m):
     """dispatch-loop rounds allowed per call: every round reads at most N characters plus the end of input,
     and re-reads after a rewind belong to the next round"""
+    if d.get("unwind"):
+        return d["unwind"]
     return max(m * (N + 1) + 2, N + 3)
 
 
 def settings(d, tier):
-    N = d.get("Nt", d["N"] + 1) if tier == "thorough" else d["N"]
-    m = d["m"]
-    return N, m
+    if tier == "thorough":
+        return d.get("Nt", d["N"] + 1), d.get("mt", d["m"])
+    return d["N"], d["m"]
 
 
-def run_defs(defs, tier, timeout=1500, jobs=None, extra_flags=()):
+LAYERC_FLAGS = ("-Z", "unstable-options", "--no-memory-safety-checks", "--no-assertion-reach-checks")
+
+
+def run_defs(defs, tier, timeout=1500, jobs=None, extra_flags=LAYERC_FLAGS):
     """run the step harness of every definition; one crate per (N, m) group, groups in parallel.
     -> list of dicts(def, N, m, unwind, result, output)"""
     import concurrent.futures as cf
@@ -115,3 +119,47 @@ def run_defs(defs, tier, timeout=1500, jobs=None, extra_flags=()):
         for rows in ex.map(one_group, list(groups)):
             out.extend(rows)
     return out
+
+
+def playback(row, timeout=1800):
+    """re-run a failed harness with concrete playback and decode the witness of each failed check.
+    -> list of dicts(check, a, n, base, rs0, done0)"""
+    import re
+    import subprocess
+    d, N = row["def"], row["N"]
+    h = "%s::step" % d["name"]
+    env = dict(os.environ, CARGO_NET_OFFLINE="true", CARGO_TARGET_DIR=os.path.join(row["crate"], "target"))
+    cmd = ["cargo", "kani", "-Z", "function-contracts", "-Z", "stubbing", "-Z", "concrete-playback", "--concrete-playback=print", "--harness", h]
+    try:
+        p = subprocess.run(cmd, cwd=row["crate"], capture_output=True, text=True, env=env, timeout=timeout)
+    except subprocess.TimeoutExpired:
+        return []
+    out = p.stdout
+    wit = []
+    for blk in re.split(r"Concrete playback unit test for", out)[1:]:
+        m = re.search(r"Check for `([a-z_]+)`: \"(.*)\"\n", blk)
+        if not m or m.group(1) == "cover":
+            continue
+        vals = [[int(x) for x in v.split(",") if x.strip()] for v in re.findall(r"vec!\[([0-9, ]*)\],", blk)]
+        try:
+            nums = [int.from_bytes(bytes(v), "little") for v in vals]
+            a = nums[:N]
+            n, line, col, byte_idx, rs0, done0 = nums[N:N + 6]
+        except Exception:
+            continue
+        wit.append({"check": m.group(2).strip('"'), "a": a, "n": n, "base": (line, col, byte_idx), "rs0": rs0, "done0": done0})
+    return wit
+
+
+def native_replay(row, w, timeout=900):
+    """build the harness crate natively (real macro from the snapshot, real lexgen_util) and run the witness"""
+    import subprocess
+    env = dict(os.environ, CARGO_NET_OFFLINE="true", CARGO_TARGET_DIR=os.path.join(row["crate"], "target_native"))
+    b = subprocess.run(["cargo", "build", "--offline", "-q"], cwd=row["crate"], capture_output=True, text=True, env=env, timeout=timeout)
+    if b.returncode != 0:
+        return "native build failed:\n" + b.stderr[-2000:]
+    import re
+    pkg = re.search(r'name\s*=\s*"([^"]+)"', open(os.path.join(row["crate"], "Cargo.toml")).read()).group(1)
+    args = [row["def"]["name"], str(w["n"]), str(w["rs0"]), str(w["done0"]), str(w["base"][0]), str(w["base"][1]), str(w["base"][2])] + [str(x) for x in w["a"]]
+    p = subprocess.run([os.path.join(row["crate"], "target_native", "debug", pkg)] + args, capture_output=True, text=True, timeout=120)
+    return "$ <harness crate> %s\n%s\n%s" % (" ".join(args), p.stdout, p.stderr[-1500:])
